@@ -41,4 +41,15 @@ theorem aget_aset (m : List (κ × Bytes)) (k : κ) (b : Bytes) (k' : κ) :
   · have h' : ¬ k' = k := fun e => h e.symm
     simp [h, h', aget_adel]
 
+theorem aget_isSome_iff_mem (m : List (κ × Bytes)) (k : κ) :
+    (aget m k).isSome ↔ ∃ e ∈ m, e.1 = k := by
+  induction m with
+  | nil => simp [aget]
+  | cons e t ih =>
+    obtain ⟨k', b⟩ := e
+    simp only [aget]
+    by_cases h : k' = k
+    · subst h; simp
+    · simp only [h, if_false, ih, List.mem_cons, exists_eq_or_imp, false_or]
+
 end Proofs.Blob
